@@ -13,7 +13,8 @@ Text encoding (tokens separated by one space; byte strings hex, `-` = empty):
 
 Operations (`C17.<op>\t<arg>…`):
   case <type> <json>    → `<check> <ferr> <check of filtered> <json of filtered>`
-  assign <dst> <src>    → `<assignable> <noHole> <hole classes: - | F9 | F10 | F9,F10>`
+  assign <dst> <src>    → `<assignable> <noHole> <hole classes: - | F9 | F10 | F9,F10> <pureNarrow>`
+  (values sent to `case` are in last-wins normal form: the harness applies `dedupLast` at every object)
   info <type>           → `<fileKind> <canFilter> <wf> <arrayDim> <mapDim>`
 -/
 namespace Driver.C17
@@ -134,7 +135,7 @@ def handle (op : String) (args : List String) : Option String :=
     let s ← tyOf s
     let hs := (holes d s).eraseDups
     pure (" ".intercalate [boolStr (assignable d s), boolStr (noHole d s),
-      if hs.isEmpty then "-" else ",".intercalate hs])
+      if hs.isEmpty then "-" else ",".intercalate hs, boolStr (pureNarrow d s)])
   | "info", [t] => do
     let t ← tyOf t
     pure (" ".intercalate [showKind (fileKind t), boolStr (canFilter t), boolStr t.wf,
